@@ -418,7 +418,17 @@ func (h kvHandler) handleKvScanLock(req *kvrpcpb.ScanLockRequest) *kvrpcpb.ScanL
 func (h kvHandler) handleKvResolveLock(req *kvrpcpb.ResolveLockRequest) *kvrpcpb.ResolveLockResponse {
 	startKey := MvccKey(h.startKey).Raw()
 	endKey := MvccKey(h.endKey).Raw()
-	err := h.mvccStore.ResolveLock(startKey, endKey, req.GetStartVersion(), req.GetCommitVersion())
+	var err error
+	if len(req.TxnInfos) > 0 {
+		// batch form (GC): the outcome of every listed transaction is applied to its locks in the region
+		txnInfos := make(map[uint64]uint64, len(req.TxnInfos))
+		for _, info := range req.TxnInfos {
+			txnInfos[info.Txn] = info.Status
+		}
+		err = h.mvccStore.BatchResolveLock(startKey, endKey, txnInfos)
+	} else {
+		err = h.mvccStore.ResolveLock(startKey, endKey, req.GetStartVersion(), req.GetCommitVersion())
+	}
 	if err != nil {
 		return &kvrpcpb.ResolveLockResponse{
 			Error: convertToKeyError(err),
